@@ -31,6 +31,7 @@ RULE = (
     "faults: connect failing with ConnectionRefusedError/TimeoutError/gaierror/OSError/SerialException through the TCP and serial factories, "
     "use before connect, close/wait_closed raising OSError. Non-trivial = > 1 chunk with a cut inside a line, or an error line followed by a "
     "good line, or a fault case; distinct = distinct case JSON."
+    ' Round 5: a `duplex` kind: several connections on one transport object, writes while a read waits (for data / for the rest of a line), disconnect variants, use after disconnect.'
 )
 ASSUMPTIONS = [
     "asyncio.StreamReader.readuntil semantics for over-long lines (data stays in the reader) are trusted; no recovery is demanded after them",
